@@ -6,8 +6,8 @@ import vf
 
 OPS = [("signblob", [""]), ("signvar", [""]), ("writevar", ["db", "OsIndications"]), ("legacywrite", ["db"]), ("signedupdate", ["db", "KEK"]),
        ("readvar", ["db"]), ("legacyread", ["db"]), ("signimage-signer", ["synthetic", "fixture-signed"]),
-       ("parseimage", ["synthetic", "synthetic-signed", "fixture", "fixture-signed"]), ("hashimage", ["synthetic", "fixture-signed"]),
-       ("signimage", ["synthetic", "synthetic-signed", "fixture"]), ("verifyimage", ["synthetic-signed", "fixture-signed"])]
+       ("parseimage", ["synthetic", "synthetic-signed", "fixture", "fixture-signed"]), ("hashimage", ["hello", "large", "synthetic", "fixture-signed"]),
+       ("signimage", ["hello", "large", "synthetic", "synthetic-signed", "fixture"]), ("verifyimage", ["hello-signed", "synthetic-signed", "fixture-signed"])]
 
 
 def scen(sid, api, variant, k, kind="error", persist=False):
@@ -25,7 +25,7 @@ def run(c):
     c.build_worker()
     c.tlc("MC_DepFaults", "depfaults.cfg", name="design-check")
     env = dict(os.environ, VERIF_REPO=vf.REPO, VERIF_FIXTURES=os.path.join(vf.VERIF, "fixtures"))
-    ops = OPS if not c.quick else [(a, v[:2]) for a, v in OPS]
+    ops = OPS if not c.quick else [(a, v[:3] if a in ("hashimage", "signimage") else v[:2]) for a, v in OPS]
     base = [scen("%s/%s/0" % (a, v), a, v, 0) for a, vs in ops for v in vs]
     res, deaths = c.run_worker("faults", base, env=env)
     if deaths:
@@ -50,7 +50,8 @@ def run(c):
                 runs.append(scen("%s/%s/%d-partial-error" % (a, v, k), a, v, k, "partial-error"))
                 runs.append(scen("%s/%s/%d-partial" % (a, v, k), a, v, k, "partial"))
             if d == "readerat.ReadAt":
-                runs.append(scen("%s/%s/%d-eof" % (a, v, k), a, v, k, "eof"))
+                for ek in ("eof", "eof1", "eof0"):      # half of the bytes / all but one byte / none of them, together with io.EOF
+                    runs.append(scen("%s/%s/%d-%s" % (a, v, k, ek), a, v, k, ek))
     res2, deaths2 = c.run_worker("faults", runs, env=env)
     allsc = base + runs
     res.update(res2)
